@@ -618,6 +618,43 @@ def run(ck):
                       'AST field %s is read from grammar field(s) %s: the node placed here is another part of the source construct' % (key, sorted(set(lits))), fn=fn['path'])
     ck.floor('R1.12', n_f, 34, 'AST struct fields read from grammar fields')
 
+    # ---- R1.12k grammar node kind -> AST variant of the same construct ---------------------------------------------------------------------
+    # `assignment_expression` builds Expression::Assignment, `if_statement` Statement::If, ..: the variant is named after the node kind
+    # (suffix _expression/_statement dropped). A kind routed into the variant of ANOTHER construct (`augmented_assignment_expression`
+    # read as a plain assignment: `x += 1` means `x = 1`) is accepted and silently changes meaning.
+    KIND_EXC = {'true': {'Bool'}, 'false': {'Bool'}, 'number': {'Integer', 'Float'}, 'statement_block': {'Block'}, 'empty_statement': {'Block'},
+                'function_expression': {'Function'}}
+    n_k = 0
+    for fn in L.fn_list:
+        if not fn['path'].startswith('qmlast::') or fn.get('body') is None:
+            continue
+        for n in walk(fn['body']):
+            if n.get('k') != 'Match':
+                continue
+            sc = H.strip_refs(n['e'])
+            if not (sc.get('k') == 'MCall' and sc.get('m') == 'kind'):
+                continue
+            for arm in n['arms']:
+                alts = arm['pat']['alts'] if arm['pat'].get('k') == 'POr' else [arm['pat']]
+                lits = [a.get('v') for a in alts if a.get('k') == 'PLit' and isinstance(a.get('v'), str)]
+                if not lits:
+                    continue
+                built = set()
+                for x in walk(arm['body']):
+                    d = x.get('def') or ''
+                    if x.get('k') in ('Call', 'Struct', 'Path') and x.get('dk') in ('Ctor', 'Variant') and re.search(r'qmlast::\w+::(Expression|Statement)::\w+$', d):
+                        built.add(d.split('::')[-1])
+                if not built:
+                    continue
+                for lit in lits:
+                    n_k += 1
+                    base = re.sub(r'_(expression|statement)$', '', lit)
+                    want = KIND_EXC.get(lit) or {''.join(w.capitalize() for w in base.split('_'))}
+                    ck.ob('R1.12', 'ast-kind|%s|%s' % (short(fn['path']), lit), built == want, L.loc(arm['pat']),
+                          'node kind `%s` builds %s' % (lit, sorted(built)) if built == want else
+                          'node kind `%s` builds %s, the construct of that name is %s: the source construct is read as a different one and accepted with that meaning' % (lit, sorted(built), sorted(want)), fn=fn['path'])
+    ck.floor('R1.12', n_k, 24, 'grammar node kinds that build an Expression / Statement variant')
+
     # ---- R1.13 walker -> visitor argument positions ----------------------------------------------------------------------------------------
     WA = _core2.load_table('walker_args.json')['calls']
     n_w = 0
